@@ -568,6 +568,7 @@ fn run_case<B: Backend>(bk: &str, is_str: bool, ops_src: &mut dyn FnMut(&Pool<B>
         let Some(op) = ops_src(&pool, k) else { break };
         k += 1;
         let before_err = alloc::snap().errors;
+        breadcrumb(&format!("bytes {} bk={} ty={}: {} ; {} -> ?", case_desc, bk, if is_str { "str" } else { "byt" }, trace.join(" ; "), op.coq()));
         let out = pool.exec(&op);
         alloc::set_window(false);
         let mut s = alloc::snap();
